@@ -2,6 +2,10 @@
 
 package forward
 
+//@ ghost var f17delta int
+//@ ghost var f17ins int
+//@ ghost var f17rm int
+
 // Machine-checked contracts for /verif (govc). Comment-only, compiled only
 // with -tags verif; changes no behaviour.
 //
@@ -21,15 +25,31 @@ package forward
 //@ ensures forall k string: has(result.targets, k) ==> exists i in 0..len(cfg.Endpoints): old(cfg.Endpoints[i].Key) == k && old(cfg.Endpoints[i].Target) == result.targets[k]
 
 //@ func (*Handler).HandleStreamOpen
-//@ prop C20
-//@ modifies *
+//@ prop C20 C17
+//@ modifies *, f17delta
+//@ ghostinit f17delta = 0
+//@ after call (*Int64).Add set f17delta = f17delta + $1
 //@ at call handleStreamOpenAsync assert has(h.targets, key) && $5 == key && $6 == h.targets[key]
 //@ at call sendOpenErr assert $4 == protocol.ErrConnectionLimit || (!has(h.targets, key) && $4 == protocol.ErrForwardNotFound)
 //@ ensures h.running && !has(h.targets, key) ==> err != nil
+//@ ensures[C17] f17delta == 0
 
 //@ func (*Handler).handleStreamOpenAsync
-//@ prop C20
-//@ modifies *
+//@ prop C20 C17 C16
+//@ modifies *, f17delta, f17ins
+//@ ghostinit f17delta = 0
+//@ ghostinit f17ins = 0
+//@ after call (*Int64).Add set f17delta = f17delta + $1
+//@ after call removeConnection set f17delta = f17delta + ite($ret != nil, -1, 0)
+//@ at call WriteStreamOpenAck set f17ins = 1
+//@ at[C17] call WriteStreamOpenAck assert f17delta == 1
+//@ at[C17] call removeConnection assert $1 == streamID && f17ins == 1
+//@ at[C17] call readLoop assert f17delta == 1 && f17ins == 1
+//@ ensures[C17] f17ins == 0 ==> f17delta == 0
+//@ ensures[C17] f17ins == 1 ==> f17delta == 1 || f17delta == 0
+//@ after call Lock#0 let hadBefore = has(h.connections, streamID)
+//@ at[C16,C17] call (*Int64).Add assert !hadBefore
+//@ note C17 / C16: as for the exit handler (internal/exit contracts): one slot per registered connection, given back through removeConnection; the last guard (the id is not in use) is a recorded known finding
 //@ at call DialContext assert $2 == "tcp" && $3 == old(target)
 //@ note C03 (responder, port forward): one fresh pair; secret = ECDH(own private, initiator's public) with nil error; key derived for (request id received, initiator public, own public, responder); that key is the connection's key and the ACK carries the own public key and the same request id
 //@ after call crypto.GenerateEphemeralKeypair let c03priv = $ret0
@@ -91,3 +111,18 @@ package forward
 // C04: a session key is never wiped while tunnel code of this package may still seal data with it (a wiped key is
 // all-zero, i.e. known to every transit): no function of this package zeroes a session key.
 //@ census[C04] crypto.(*SessionKey).Zero in -
+
+// ---- C17: the port-forward endpoint's connection counter moves only together with its connection map ----
+//@ guarded Handler.mu: connections
+
+//@ func (*Handler).removeConnection
+//@ prop C17 C16
+//@ modifies *, f17rm
+//@ check lockset
+//@ ghostinit f17rm = 0
+//@ after call (*Int64).Add set f17rm = f17rm + $1
+//@ after call Lock let had = has(h.connections, streamID)
+//@ at call Unlock assert !has(h.connections, streamID)
+//@ at call Unlock assert forall k uint64: k != streamID ==> (has(h.connections, k) <==> old(has(h.connections, k)))
+//@ ensures had ==> f17rm == -1
+//@ ensures !had ==> f17rm == 0 && result == nil
